@@ -105,7 +105,11 @@ Inductive case :=
 (* a certificate directory behind the real PathSource going through a history of states, each
    described by what Lstat and a read of every entry yield: the names of the leaf a handshake
    was given after each state *)
-| CDir (states : list dirstate) (sn : str) (strict : bool) (impl : list seen).
+| CDir (states : list dirstate) (sn : str) (strict : bool) (impl : list seen)
+(* one call of the real loadPath on a certificate directory described entry by entry (what
+   Lstat and a read of every entry yield): the error, or the map it returned (keys relative to
+   the certificate path, in ascending order) *)
+| CDirLoad (d : dirstate) (impl : load).
 
 (* the property's demand on what a handshake is given after [set] was published: the names
    say which position(s) may answer, and the value given is the set's own at that position *)
@@ -129,6 +133,19 @@ Definition seen_ok (set : certset) (sn : str) (strict : bool) (x : seen) : bool 
 Definition is_some {A} (o : option A) : bool := match o with Some _ => true | None => false end.
 
 Definition unusable_b (l : load) : bool := match usable l with None => true | Some _ => false end.
+
+(* two results of a load as maps: the same keys with the same bytes behind them *)
+Definition entry_eqb (x y : str * pfile) : bool := beq (fst x) (fst y) && pfile_eqb (snd x) (snd y).
+Definition blocks_equiv (a b : blocks) : bool :=
+  Nat.eqb (length a) (length b)
+  && forallb (fun x => existsb (entry_eqb x) b) a && forallb (fun y => existsb (entry_eqb y) a) b.
+Definition load_equiv (a b : load) : bool :=
+  match a, b with
+  | LoadErr, LoadErr => true
+  | Loaded None, Loaded None => true
+  | Loaded (Some x), Loaded (Some y) => blocks_equiv x y
+  | _, _ => false
+  end.
 
 Definition check_case (c : case) : N :=
   match c with
@@ -207,4 +224,10 @@ Definition check_case (c : case) : N :=
                        (seq 0 (length states)) impl in
       let nontriv := match m with p :: r => existsb (fun q => negb (seen_eqb p q)) r | [] => false end in
       verdict same spec None nontriv
+  | CDirLoad d impl =>
+      let same := load_equiv impl (dir_load d) in
+      (* what the property needs of one load: the reload loop makes of it the set - or the
+         refusal - that the directory reads as (the declarative view) *)
+      let spec := opt_eqb certset_eqb (usable impl) (usable (dir_view d)) in
+      verdict same spec None (Nat.ltb 1 (length (filter wanted d)))
   end.
